@@ -280,3 +280,31 @@ def run(F, ctx):
     if not ok:
         ctx.violation(WAL + "::ensure_writer:R-DUR-7:append-glued-to-torn-tail", "the log is opened for append without looking at its last byte: when a crash left a torn last line without a newline, the next acknowledged entry is written onto the same line, fails the checksum with it at the following recovery and is lost", ew.where())
     ctx.end_rule()
+
+    # ---- DUR-8
+    ctx.rule("R-DUR-8", "WAL rewrite: the writer's buffer is written out before the log file is read and replaced", floor=1)
+    rs = F.fn(WAL + "::remove_shard_entries")
+    reads = [c for c in rs.normal_calls() if (c.resolved or "") == WAL + "::read_all" or re.search(r"^std::fs::(read|read_to_string)|File::open", c.static or "")]
+    reads = [c for c in reads if (c.resolved or "") == WAL + "::read_all"] or reads
+    flushes = [c for c in rs.normal_calls() if re.search(r"BufWriter<std::fs::File> as std::io::Write>::flush$", c.static_args or "")]
+    renames = [c for c in rs.normal_calls() if dur.m(c, dur.P_RENAME)]
+    if not reads or not renames:
+        raise CheckError("remove_shard_entries: read of the log / rename not found (anchor moved)")
+    # a flush of the *live* writer (the one stored in self.writer), before the first read; the None side of `if let Some(writer)` is the no-writer case
+    wl = set()
+    for c in common.calls_on_field(rs, "writer"):
+        wl |= rs.derive({c.dst["l"]}, through_calls=True) | {c.dst["l"]}
+    live_flush = []
+    for c in flushes:
+        a0 = op_local(c.args[0])
+        if a0 in wl or any(fd == "writer" for o in (common.origins(rs, a0) | {a0}) for r_ in [common.ref_field_of(rs, o)] if r_ for fd in [r_[1]]):
+            live_flush.append(c)
+    none_t = []
+    for (bb, adt, pl, mm, other) in rs.enum_switches("std::option::Option"):
+        if "Some" in mm and any(rs.dominates(mm["Some"], c.bb) for c in live_flush):
+            none_t.append(mm.get("None", other))
+    ok = bool(live_flush) and all(rs.path(0, [r_.bb], stop={c.bb for c in live_flush} | set(none_t)) is None for r_ in reads)
+    ctx.site("remove_shard_entries: live writer flushed before the log is read", rs.where(), ok=ok, flushes_of_live_writer=len(live_flush), reads=len(reads))
+    if not ok:
+        ctx.violation(WAL + "::remove_shard_entries:R-DUR-8:buffered-entries-dropped", "remove_shard_entries reads the log file while entries of other shards may still sit in the writer's buffer (batched durability), then replaces the file: those entries - acknowledged, even synced later - are gone after a crash (`append(db:b,x) append(db:a,y) flush(db:b) sync() crash` recovers db:a empty)", rs.where())
+    ctx.end_rule()
